@@ -4,7 +4,7 @@ import ast
 from ..core import sym
 from ..core.expand import u, call_name, get_arg, bind_args, Expander, is_marker, phi_alternatives
 from ..core.loader import Inconclusive, const_value, parents
-from .common import (returns, all_nodes, callee, strip_shape, calls_in, guards_of, stmt_of, kw, find_assignments, compare_nf,
+from .common import (guarded_values, returns, all_nodes, callee, strip_shape, calls_in, guards_of, stmt_of, kw, find_assignments, compare_nf,
                      dict_literal_items, in_loop)
 
 EXPLANATION = (
@@ -196,14 +196,13 @@ def rule_flush(ck):
                 probs.append('prev_id is set to `%s`, not to catalog_id' % u(adv[0].value))
         # the new list holds the current event unless the row is a placeholder
         news = [x for st in body for x in ast.walk(st) if isinstance(x, ast.Assign) and any(isinstance(tg, ast.Name) and tg.id == 'events' for tg in x.targets)]
-        vals = sorted(u(x.value) for x in news)
+        alts = [gv for x in news for gv in guarded_values(P, f, x.value, x, stop=lp)]
+        vals = sorted({u(v) for v, _ in alts})
         if vals and vals != ['[]', '[temp_event]']:
             probs.append('the new pending list is %s; it must be [temp_event], or [] for a placeholder row' % vals)
-        for x in news:
-            if u(x.value) == '[temp_event]':
-                g = [(u(t2), pol) for t2, pol in guards_of(x, lp)]
-                if ('empty', False) not in g and ('not empty', True) not in g:
-                    probs.append('[temp_event] is not restricted to non-placeholder rows')
+        for v, g in alts:
+            if u(v) == '[temp_event]' and ('empty', False) not in g:
+                probs.append('[temp_event] is not restricted to non-placeholder rows')
         (o.fail('; '.join(probs)) if probs else o.ok('yield(events, prev_id) -> gap catalogs -> events = [temp_event]|[] -> prev_id = catalog_id'))
     # same-catalog branch appends
     for t, body in ch:
